@@ -16,8 +16,8 @@ def cbytes(b: bytes) -> str:
     return "(List.concat [" + ";".join(_cbytes(b[i:i + 64]) for i in range(0, len(b), 64)) + "])"
 
 ID = "C36"
-QUICK_N = 5000
-THOROUGH_N = 60000
+QUICK_N = 3000
+THOROUGH_N = 30000
 SHARD = 150
 RULE = ("kinds: dumps(value tree) 14%, load(bytes) 24%, pop(bytes) 20%, FlowReader.stream over small records with a "
         "stubbed from_state raising every exception class 24%, nesting around the interpreter recursion budget 2%, "
